@@ -1,7 +1,7 @@
 (* C14 -- Replies reassemble identically under any TCP segmentation; EOF is an error.
    Statements only. The transport is (remaining stream, schedule of segment sizes); the
    quantification is over every schedule, every reply and every EOF point, with no bound. *)
-From V Require Import Prelude.Base Prelude.PyInt Prelude.PySlice Model.Recv Proofs.C14.
+From V Require Import Prelude.Base Prelude.PyInt Prelude.PySlice Model.Recv Proofs.C14 gen.K_client Proofs.C14Kernels.
 
 (* sync: whatever the segmentation (including inside the 16-byte header), exactly the reply's
    bytes are reassembled, the rest of the stream is untouched, in at most len(reply) reads *)
@@ -39,3 +39,26 @@ Print Assumptions C14_same_pdu.
 Example C14_wf_example :
   wf_reply [5;0;2;3; 16;0;0;0; 28;0; 0;0; 1;0;0;0;  4;0;0;0; 0;0; 0;0;  1;2;3;4].
 Proof. split; [vm_compute; discriminate|reflexivity]. Qed.
+
+(* ---- tie to the source. The two receive functions fill their buffer through memoryview aliases, which the flow semantics cannot
+   express, so they are tied by kernels: the regenerated loop guard and requested size of the sync header loop, the two sizes the
+   async reader asks for, and the statement skeleton of both functions (send, header read with the EOF test right after each read,
+   buffer of exactly frag_len octets, header copied to its front, body read into the remaining view until it is empty with the EOF
+   test, nothing else before _process_response) ---- *)
+Theorem C14_kernels :
+  (forall n, k_recv_hdr_guard n = (n <? 16)) /\ (forall n, k_recv_hdr_want n = 16 - n) /\
+  k_recv_async_hdr_want = 16 /\ (forall n, k_recv_async_body_want n = n - 16) /\
+  k_recv_sync_shape = true /\ k_recv_async_shape = true.
+Proof. exact recv_kernels. Qed.
+Print Assumptions C14_kernels.
+
+(* the source's header loop, written with the regenerated guard and size, is the model's read-exactly loop: from any partial header,
+   and in particular the model's header read from the empty one *)
+Theorem C14_header_loop_is_model : forall fuel header t reads,
+  hdr_loop_src fuel header t reads = recv_exactly fuel (16 - len header) header t reads.
+Proof. exact hdr_loop_src_is_recv_exactly. Qed.
+Print Assumptions C14_header_loop_is_model.
+Theorem C14_header_loop_from_empty : forall fuel t, hdr_loop_src fuel [] t 0 = recv_exactly fuel 16 [] t 0.
+Proof. exact sync_header_loop. Qed.
+Print Assumptions C14_header_loop_from_empty.
+
